@@ -848,7 +848,7 @@ func drive(w *hx.W, sc *scenario, f fault, desc, sigBase string, cEnd *vconn.Con
 	res := runResult{}
 	select {
 	case <-done:
-	case <-time.After(25 * time.Second):
+	case <-time.After(60 * time.Second):
 		close(stopMon)
 		x.mu.Lock()
 		cur := x.current
@@ -1050,7 +1050,7 @@ func main() {
 		Rule:  "fault points = for each of 14 client scenarios (all commands incl. sync literals, IDLE, AUTHENTICATE with and without initial response, STARTTLS, pipelining, streaming FETCH with partially consumed literals) 12 recorded live against the real server + in-memory backend and 5 against a scripted server emitting unusual but valid transcripts (40..70 data items per FETCH response, unilateral data, zero-length literals, responses without text, 300 EXPUNGE responses taken one by one by a consumer that calls State()/Mailbox() in between, BINARY sections as literal8 / literal / quoted string that the caller skips or leaves half read): every server->client byte offset x {EOF, read error, stall} and every client->server offset x {write error} (long literal bodies thinned to every 5th offset; quick: every offset of 5 scenarios, every 7th of the rest); each fault point is a distinct case",
 		Assumptions: []string{
 			"after the fault every I/O completes at once: errors immediately, a stalled read times out immediately when a read deadline is set (virtual time); a stalled read without deadline is ended by the harness calling Client.Close once the client is parked in it",
-			"the 45 s / 30 s backstops are orders of magnitude above the observed run time (milliseconds)",
+			"the 60 s / 30 s backstops are orders of magnitude above the observed run time (milliseconds)",
 			"scenarios honour the documented contract: streaming commands are consumed or closed, Close is called last",
 			"the success-implies-completion check is skipped for the STARTTLS scenario (ciphertext)",
 		},
